@@ -578,6 +578,26 @@ Definition read_partitions_call (v6 : bool) (conn_topic : str) (arg : option (li
            (cluster : md_response) : parts_result :=
   read_partitions v6 conn_topic (broker_metadata_answer cluster (read_partitions_request conn_topic arg)).
 
+(* client.go Client.roundTrip: which cluster a query goes to.  The Addr of the request
+   takes precedence over the Addr of the client; with neither the call fails ("no address
+   was given for the kafka cluster in the request or on the client") before any round trip.
+   The transport is a function of the address (one cluster per address). *)
+Definition effective_addr {A} (req_addr client_addr : option A) : option A :=
+  match req_addr with
+  | Some a => Some a
+  | None => client_addr
+  end.
+
+Definition client_round_trip {A Q R} (transport : A -> Q -> R) (req_addr client_addr : option A) (q : Q)
+  : option R :=
+  match req_addr with
+  | None => match client_addr with
+            | None => None
+            | Some a => Some (transport a q)
+            end
+  | Some a => Some (transport a q)
+  end.
+
 (* ------------------------------------------------------------------------- *)
 (* client.go ConsumerOffsets                                                  *)
 
